@@ -277,6 +277,9 @@ func (r *chainRig) upstreamHandler(w http.ResponseWriter, req *http.Request) {
 	}
 }
 
+// hosts served by the chain instance built with proxy tracing enabled
+var tracedHosts = map[string]bool{"traced.test": true, "tracedplain.test": true, "gated.test": true, "untraced.test": true}
+
 func allRule() []proxyv1alpha1.DispatchPolicyRule {
 	return []proxyv1alpha1.DispatchPolicyRule{{
 		Verbs: []string{"*"}, APIGroups: []string{"*"}, Resources: []string{"*"}, NonResourceURLs: []string{"*"},
@@ -284,8 +287,17 @@ func allRule() []proxyv1alpha1.DispatchPolicyRule {
 }
 
 func (r *chainRig) addCluster(name string, endpoint string, disabled bool, fc []proxyv1alpha1.FlowControlSchema, schema string) {
+	r.addClusterGated(name, endpoint, disabled, fc, schema, "")
+}
+
+// addClusterGated: gates is the value of the cluster's feature gate annotation ("" = no annotation)
+func (r *chainRig) addClusterGated(name string, endpoint string, disabled bool, fc []proxyv1alpha1.FlowControlSchema, schema string, gates string) {
+	meta := metav1.ObjectMeta{Name: name}
+	if gates != "" {
+		meta.Annotations = map[string]string{"proxy.kubegateway.io/feature-gates": gates}
+	}
 	obj := &proxyv1alpha1.UpstreamCluster{
-		ObjectMeta: metav1.ObjectMeta{Name: name},
+		ObjectMeta: meta,
 		Spec: proxyv1alpha1.UpstreamClusterSpec{
 			Servers:      []proxyv1alpha1.UpstreamClusterServer{{Endpoint: endpoint, Disabled: &disabled}},
 			ClientConfig: proxyv1alpha1.ClientConfig{Insecure: true, BearerToken: []byte(gatewayToken)},
@@ -335,6 +347,11 @@ func newChainRig() *chainRig {
 
 	r.addCluster("ok.test", r.up.URL, false, nil, "")
 	r.addCluster("plain.test", r.upPlain.URL, false, nil, "")
+	// clusters reached through the chain built with proxy tracing enabled (see tracedHosts)
+	r.addClusterGated("traced.test", r.up.URL, false, nil, "", "Tracing=true")
+	r.addClusterGated("tracedplain.test", r.upPlain.URL, false, nil, "", "Tracing=true,CloseConnectionWhenIdle=true")
+	r.addClusterGated("gated.test", r.up.URL, false, nil, "", "CloseConnectionWhenIdle=true")
+	r.addCluster("untraced.test", r.up.URL, false, nil, "")
 	r.addCluster("limited.test", r.up.URL, false, []proxyv1alpha1.FlowControlSchema{{
 		Name: "zero",
 		FlowControlSchemaConfiguration: proxyv1alpha1.FlowControlSchemaConfiguration{
@@ -356,12 +373,19 @@ func newChainRig() *chainRig {
 	cfg.RequestInfoResolver = genericapiserver.NewRequestInfoResolver(cfg)
 	notProxied := http.HandlerFunc(func(w http.ResponseWriter, req *http.Request) { w.WriteHeader(404) })
 	chain := app.VerifBuildProxyHandlerChain(r.mgr)(notProxied, cfg)
+	// a second instance of the real chain, assembled with --enable-proxy-tracing: WithTraceLog is active for
+	// clusters whose feature gate Tracing is on and a no-op for the others
+	tracedChain := app.VerifBuildProxyHandlerChainTraced(r.mgr)(notProxied, cfg)
 
 	outer := http.HandlerFunc(func(w http.ResponseWriter, req *http.Request) {
 		s := record(req, false)
 		r.mu.Lock()
 		r.gwSeen = &s
 		r.mu.Unlock()
+		if tracedHosts[req.Host] {
+			tracedChain.ServeHTTP(w, req)
+			return
+		}
 		chain.ServeHTTP(w, req)
 	})
 	ln, err := net.Listen("tcp", "127.0.0.1:0")
